@@ -149,44 +149,50 @@ func c26Run(in c26In) (V, Verdict) {
 	}
 
 	// ---- direct oracle: the property on the implementation's output ----
-	pkt := buf[:in.N]
+	return obs, c26Oracle(buf[:in.N], delivered, got, in.PT, in.SSRC)
+}
+
+// c26Oracle restates the property for one repair packet pkt, given whether
+// TrackRemote.Read delivered something for it (got) and the primary stream's
+// payload type and SSRC at that moment.
+func c26Oracle(pkt []byte, delivered bool, got webrtc.VerifRTXRead, pt int, ssrc uint32) Verdict {
 	p, ok := c26Parse(pkt)
 	if !ok {
-		return obs, Pass(fmt.Sprintf("malformed/delivered=%v", delivered), false)
+		return Pass(fmt.Sprintf("malformed/delivered=%v", delivered), false)
 	}
 	class := fmt.Sprintf("cc%s/x%v/p%v/pay%s", c26CCBucket(p.CC), p.Ext, p.Pad, c26PayBucket(len(p.Payload)))
 	if len(p.Payload) < 2 {
 		if delivered {
-			return obs, Fail("rtx-short-packet-delivered",
+			return Fail("rtx-short-packet-delivered",
 				fmt.Sprintf("payload of %d bytes cannot carry an OSN but %x was delivered", len(p.Payload), got.Packet))
 		}
-		return obs, Pass(class, false)
+		return Pass(class, false)
 	}
 	if !delivered {
-		return obs, Fail("rtx-valid-packet-dropped", fmt.Sprintf("well-formed RTX packet %x was ignored", pkt))
+		return Fail("rtx-valid-packet-dropped", fmt.Sprintf("well-formed RTX packet %x was ignored", pkt))
 	}
 	q, ok := c26Parse(got.Packet)
 	switch {
 	case !ok:
-		return obs, Fail("rtx-output-unparseable", fmt.Sprintf("output %x is not an RTP packet", got.Packet))
+		return Fail("rtx-output-unparseable", fmt.Sprintf("output %x is not an RTP packet", got.Packet))
 	case q.Seq != binary.BigEndian.Uint16(p.Payload):
-		return obs, Fail("rtx-osn-not-restored", fmt.Sprintf("sequence number %d, OSN %d", q.Seq, binary.BigEndian.Uint16(p.Payload)))
-	case q.PT != in.PT:
-		return obs, Fail("rtx-pt-not-primary", fmt.Sprintf("payload type %d, primary %d", q.PT, in.PT))
-	case q.SSRC != in.SSRC:
-		return obs, Fail("rtx-ssrc-not-primary", fmt.Sprintf("ssrc %d, primary %d", q.SSRC, in.SSRC))
+		return Fail("rtx-osn-not-restored", fmt.Sprintf("sequence number %d, OSN %d", q.Seq, binary.BigEndian.Uint16(p.Payload)))
+	case q.PT != pt:
+		return Fail("rtx-pt-not-primary", fmt.Sprintf("payload type %d, primary %d", q.PT, pt))
+	case q.SSRC != ssrc:
+		return Fail("rtx-ssrc-not-primary", fmt.Sprintf("ssrc %d, primary %d", q.SSRC, ssrc))
 	case !bytes.Equal(q.Payload, p.Payload[2:]):
-		return obs, Fail("rtx-payload-differs", fmt.Sprintf("payload %x, want %x", q.Payload, p.Payload[2:]))
+		return Fail("rtx-payload-differs", fmt.Sprintf("payload %x, want %x", q.Payload, p.Payload[2:]))
 	case q.Ver != p.Ver || q.M != p.M || q.TS != p.TS || q.CC != p.CC || !bytes.Equal(q.CSRC, p.CSRC) ||
 		q.Ext != p.Ext || q.ExtProfile != p.ExtProfile || !bytes.Equal(q.ExtData, p.ExtData):
-		return obs, Fail("rtx-header-field-changed", fmt.Sprintf("header %+v became %+v", p, q))
+		return Fail("rtx-header-field-changed", fmt.Sprintf("header %+v became %+v", p, q))
 	case q.Pad != p.Pad || !bytes.Equal(q.PadBytes, p.PadBytes):
-		return obs, Fail("rtx-padding-changed", fmt.Sprintf("padding %v %x became %v %x", p.Pad, p.PadBytes, q.Pad, q.PadBytes))
+		return Fail("rtx-padding-changed", fmt.Sprintf("padding %v %x became %v %x", p.Pad, p.PadBytes, q.Pad, q.PadBytes))
 	case !got.HasAttr || int(got.RtxPT) != p.PT || got.RtxSeq != p.Seq || got.RtxSSRC != p.SSRC:
-		return obs, Fail("rtx-attributes-wrong", fmt.Sprintf("attributes (%v %d %d %d), RTX packet had (%d %d %d)",
+		return Fail("rtx-attributes-wrong", fmt.Sprintf("attributes (%v %d %d %d), RTX packet had (%d %d %d)",
 			got.HasAttr, got.RtxPT, got.RtxSeq, got.RtxSSRC, p.PT, p.Seq, p.SSRC))
 	}
-	return obs, Pass(class, true)
+	return Pass(class, true)
 }
 
 func c26CCBucket(cc int) string {
